@@ -84,9 +84,10 @@ Example C05_example :
   redact_tree current current_consts {| repl := "R"; nums := true; bools := true; ips := false; nss := false; eager := nil; re := None |}
               (real_actions current_consts {| repl := "R"; nums := true; bools := true; ips := false; nss := false; eager := nil; re := None |} None) ex5
   = JObj [("c", JStr "COMMAND"); ("attr", JObj [("command", JObj [("find", JStr "x");
-     ("filter", JObj [("d", JObj [("$date", JStr "1970-01-01T00:00:00.000Z")]); ("o", JObj [("$oid", JStr "000000000000000000000000")]);
-                      ("b", JObj [("$binary", JObj [("base64", JStr "AAAAAAAAAAAAAAAAAAA="); ("subType", JStr "04")])]);
-                      ("e", JStr "redacted@redacted.com"); ("s", JStr "R"); ("n", JNum "0"); ("t", JBool false)])])])]%string.
+     ("filter", JObj [("d", JObj [("$date", JStr (c_isodate current_consts))]); ("o", JObj [("$oid", JStr (c_oid current_consts))]);
+                      ("b", JObj [("$binary", JObj [("base64", JStr (c_uuid current_consts)); ("subType", JStr "04")])]);
+                      ("e", JStr (c_email current_consts)); ("s", JStr "R"); ("n", JNum (c_num current_consts)); ("t", JBool (c_bool current_consts))])])])]%string.
+(* (the constants are those of the regenerated Gen/Consts.v, whatever their text: that each is valid for its class is C05_consts_ok) *)
 Proof. vm_compute. reflexivity. Qed.
 
 (* ---------- field-name mode ---------- *)
